@@ -7,13 +7,14 @@ value-taking option is consumed under its own name and stored into the Settings 
 name (scale multiplies the default); X4 every exit with a non-zero status is control-dependent on an
 error/none outcome, and the success path of the batch mode exits 0; X5 no Result of a workspace
 function is dropped: its error arm exits non-zero, propagates, or feeds a failure count that
-controls an error return; X6 the library prints nothing on the conversion path except two reviewed
+controls an error return; X7 no failure exit can follow the creation/truncation of the output file other
+than the report of that write's own failure (no partial output on option errors); X6 the library prints nothing on the conversion path except two reviewed
 diagnostics on believed-infeasible paths.  Not decided: partial output on I/O failure (fs::write
 semantics), clap's own parsing."""
 import re
 
 from ..common import find_nodes, guards, lib_reachable, short, src_file, where
-from ..exprs import decode_fmt_template, mentions, strip
+from ..exprs import closure_of, decode_fmt_template, mentions, strip, subst_closure
 from ..mirlib import Expr, Program, expr_str, op_const, op_place
 
 MAIN = "svgbob_cli::main"
@@ -60,16 +61,38 @@ def run(run):
     lbid, lt = libcalls[0]
     is_lib = lambda e: strip(e)[0] == "call" and strip(e)[1] == LIBCALL
     # ---------------- X1 outputs
-    writes = [(bid, t) for bid, t in prog.calls(MAIN) if Program.callee_name(t) == "std::fs::write"]
+    # fs::write(path, data), or write_all(data) on a File (the path is then whatever the File was created from)
+    writes = [(bid, t) for bid, t in prog.calls(MAIN) if re.search(r"^std::fs::write$|^(<std::fs::File as )?std::io::Write(>)?::write_all$", Program.callee_name(t))]
     prints = [(bid, t) for bid, t in prog.calls(MAIN) if Program.callee_name(t) == "std::io::stdio::_print"]
-    for bid, t in writes:
-        data = ex.operand(t["args"][1])
-        path = ex.operand(t["args"][0])
+
+    def through(e):
+        e = strip(e)
+        while e[0] == "call" and re.search(r"::as_bytes$|Deref>::deref$|::as_str$|AsRef<.*>>::as_ref$", e[1]) and e[2]:
+            e = strip(e[2][0])
+        return e
+
+    sites = [(bid, t, through(ex.operand(t["args"][1])), ex.operand(t["args"][0])) for bid, t in writes]
+    # the same write inside a closure of main that is handed to a combinator (File::create(p).and_then(|f| f.write_all(..)))
+    for bid, t in prog.calls(MAIN):
+        for a in t["args"]:
+            cp, caps = closure_of(strip(ex.operand(a)))
+            if not cp:
+                continue
+            cex = Expr(prog, cp)
+            recv = ex.operand(t["args"][0])
+            for cbid, ct in prog.calls(cp):
+                if re.search(r"^std::fs::write$|^(<std::fs::File as )?std::io::Write(>)?::write_all$", Program.callee_name(ct)):
+                    d = subst_closure(cex.operand(ct["args"][1]), caps, (recv,))
+                    pth = subst_closure(cex.operand(ct["args"][0]), caps, (recv,))
+                    writes.append((bid, ct))
+                    sites.append((bid, ct, through(d), pth))
+    for bid, t, data, path in sites:
         if is_lib(data):
             run.ok("C19.X1", "fs::write receives the library result unmodified", where(t))
         else:
             run.bad("C19.X1", "file-output-modified", where(t), "fs::write receives `%s`, not the unmodified result of %s" % (expr_str(data)[:120], LIBCALL))
-        if value_of_names(path) == ["output"]:
+        names = value_of_names(path)
+        if names == ["output"] or (Program.callee_name(t).endswith("write_all") and "output" in names):
             run.ok("C19.X1", "the output file is the --output option", where(t), nontrivial=False)
         else:
             run.bad("C19.X1", "output-path", where(t), "fs::write target derives from %r" % value_of_names(path))
@@ -241,7 +264,7 @@ def run(run):
             if cs[0] == "discr":
                 # Result: 0 = Ok, 1 = Err; Option: 0 = None, 1 = Some
                 ty_hint = expr_str(cs)
-                is_result = mentions(cs, lambda z: z[0] == "call" and re.search(r"File::open|fs::write|::parse$|svgbob_cli::build|convert_file|read_to_string|create_dir", z[1]))
+                is_result = mentions(cs, lambda z: z[0] == "call" and re.search(r"File::open|File::create|fs::write|write_all$|::parse$|svgbob_cli::build|convert_file|read_to_string|create_dir", z[1]))
                 if is_result and tk == 1:
                     errish = True
                 if is_result and tk == 0:
@@ -332,9 +355,94 @@ def run(run):
             else:
                 run.bad("C19.X5", "dropped-error/%s/%s" % (short(p), short(callee)), where(t),
                         "%s: the error arm neither exits non-zero, propagates, nor feeds a failure that is reported" % inst)
+    x7(run, MAIN)
     x6(run)
     batch(run)
     run.assume("clap parses the command line as documented; fs::write may leave a partial file on I/O errors (not decided)")
+
+
+CREATE = r"^std::fs::write$|^std::fs::File::create(_new)?$|^std::fs::OpenOptions::open$|^std::fs::copy$|^std::fs::rename$"
+
+
+def x7(run, fn):
+    """X7 no partial output: once the destination file has been created (or truncated) no failure exit can
+    still happen, except the one that reports the failure of that very write.  Creation events of `fn`: calls
+    to fs::write / File::create / OpenOptions::open in `fn`, and calls in `fn` that are handed a closure of
+    `fn` containing such a call.  Failure exits: process::exit(non-zero) and calls of svgbob_cli functions that
+    reach one."""
+    prog = run.prog
+    b = prog.bodies[fn]
+    cfg = prog.cfg(fn)
+    ex = Expr(prog, fn, opaque=r"get_matches$")
+    cli = [q for q in prog.bodies if q.startswith("svgbob_cli::")]
+
+    def nonzero_exit(t):
+        if t["k"] == "call" and Program.callee_name(t) == "std::process::exit":
+            c = op_const(t["args"][0])
+            return not (c and c.get("int") == 0)
+        return False
+
+    E = prog.edges()
+    failing = {q for q in cli if any(nonzero_exit(t) for _, t in prog.calls(q))}
+    changed = True
+    while changed:
+        changed = False
+        for q in cli:
+            if q not in failing and any(c in failing for c in E.get(q, ())):
+                failing.add(q)
+                changed = True
+    creating_closures = {q for q in prog.closures_of(fn) if any(re.search(CREATE, Program.callee_name(t)) for _, t in prog.calls(q))}
+    events = []
+    for bid, t in prog.calls(fn):
+        name = Program.callee_name(t)
+        if re.search(CREATE, name):
+            events.append((bid, t, name))
+            continue
+        for a in t["args"]:
+            e = ex.operand(a)
+            e = strip(e)
+            hit = [q for q in creating_closures if e[0] == "agg" and e[1] == "closure:" + q]
+            if hit:
+                events.append((bid, t, "%s(%s)" % (short(name), short(hit[0]))))
+    if creating_closures and not any("closure" in d for _, _, d in events):
+        run.bad("C19.X7", "creation-site-unresolved/%s" % short(fn), where(b), "a closure of %s creates a file but the call that runs it was not found" % short(fn))
+    for bid, t, desc in events:
+        # the error arm that reports this write's own failure
+        own = set()
+        for blk in b["blocks"]:
+            sw = blk["term"]
+            if sw["k"] != "switch":
+                continue
+            c = strip(ex.operand(sw["on"]))
+            if re.search(CREATE, Program.callee_name(t)) and c[0] == "discr" and strip(c[1])[0] == "call" and mentions(c[1], lambda z: z[0] == "call" and len(z) > 3 and z[3] == bid and z[1] == Program.callee_name(t)):
+                errs = [sw["targets"][i] for i, v in enumerate(sw["values"]) if v == 1]
+                oks = [x for x in sw["targets"] if x not in errs]
+                if errs:
+                    reg = cfg.reachable_from(errs[0], removed=[blk["id"]])
+                    for o in oks:
+                        reg -= cfg.reachable_from(o, removed=[blk["id"]])
+                    own |= reg
+        after = set()
+        for tg in t.get("targets", []):
+            after |= cfg.reachable_from(tg)
+        late = []
+        for rb in sorted(after - own):
+            tt = b["blocks"][rb]["term"]
+            if b["blocks"][rb].get("cleanup") or tt["k"] != "call":
+                continue
+            cn = Program.callee_name(tt)
+            if nonzero_exit(tt) or cn in failing or any(
+                    strip(ex.operand(a))[0] == "agg" and str(strip(ex.operand(a))[1])[8:] in failing for a in tt["args"]):
+                late.append((cn, tt))
+        if late:
+            cn, tt = late[0]
+            run.bad("C19.X7", "partial-output/%s" % short(fn), where(tt),
+                    "the destination is created at %s (%s) but %s at %s can still end the run with a failure status afterwards: a failed run leaves an empty or truncated output file" % (
+                        where(t), desc, short(cn), where(tt)))
+        else:
+            run.ok("C19.X7", "no failure exit can follow the creation of the output by %s" % desc, where(t),
+                   "%d blocks follow; the error arm of this write itself is excluded (%d blocks)" % (len(after), len(own)))
+    run.floor("C19.X7", "creation_events/%s" % short(fn), len(events), 1)
 
 
 def x6(run):
@@ -369,6 +477,7 @@ def batch(run):
             run.ok("C19.X1", "batch mode writes to_svg_with_settings(file text, default settings) to the output path", where(ws[0]))
         else:
             run.bad("C19.X1", "batch-output", where(prog.bodies[cf]), "convert_file does not write the unmodified default conversion of the file it read")
+        x7(run, cf)
     else:
         run.missing("C19.X1", cf)
 
